@@ -527,7 +527,7 @@ func returnsGlobalAddr(fn *ssa.Function) bool {
 		if len(b.Instrs) == 0 {
 			continue
 		}
-		if ret, ok := b.Instrs[len(b.Instrs)-1].(*ssa.Return); ok && len(ret.Results) == 1 {
+		if ret, ok := b.Instrs[len(b.Instrs)-1].(*ssa.Return); ok && len(ret.Results) >= 1 {
 			if _, ok := ret.Results[0].(*ssa.Global); ok {
 				return true
 			}
@@ -542,8 +542,22 @@ func checkConfigValues(p *core.Program, r *core.Report, perm *gadgetInfo, rfFiel
 	for _, b := range perm.Fn.Blocks {
 		for _, in := range b.Instrs {
 			if c, ok := in.(*ssa.Call); ok {
-				if sc := c.Common().StaticCallee(); sc != nil && sc.Pkg == perm.Fn.Pkg && len(sc.Params) == 1 && sc.Blocks != nil && sc.Signature.Recv() == nil && returnsGlobalAddr(sc) {
-					sel = sc
+				if sc := c.Common().StaticCallee(); sc != nil && sc.Pkg == perm.Fn.Pkg && len(sc.Params) == 1 && sc.Blocks != nil && sc.Signature.Recv() == nil {
+					if returnsGlobalAddr(sc) {
+						sel = sc
+						continue
+					}
+					// a must-style wrapper around a (value, error) lookup: the table selection is in the function it hands
+					// its parameter to
+					for _, wb := range sc.Blocks {
+						for _, wi := range wb.Instrs {
+							if wc, ok := wi.(*ssa.Call); ok {
+								if in := wc.Common().StaticCallee(); in != nil && in.Pkg == sc.Pkg && len(in.Params) == 1 && in.Blocks != nil && len(wc.Common().Args) == 1 && wc.Common().Args[0] == ssa.Value(sc.Params[0]) && returnsGlobalAddr(in) {
+									sel = in
+								}
+							}
+						}
+					}
 				}
 			}
 		}
@@ -572,7 +586,7 @@ func checkConfigValues(p *core.Program, r *core.Report, perm *gadgetInfo, rfFiel
 		k, _ := constant.Int64Val(c.Value)
 		tb := b.Succs[0]
 		if len(tb.Instrs) > 0 {
-			if ret, ok := tb.Instrs[len(tb.Instrs)-1].(*ssa.Return); ok && len(ret.Results) == 1 {
+			if ret, ok := tb.Instrs[len(tb.Instrs)-1].(*ssa.Return); ok && len(ret.Results) >= 1 {
 				if gl, ok := ret.Results[0].(*ssa.Global); ok {
 					sel2[k] = gl.Name()
 				}
